@@ -936,6 +936,21 @@ func (h *c19Run) judge() (finds []c19Finding, decisions int64, observed map[stri
 				}
 			}
 			if best >= 0 {
+				// "Nothing of this file" is ambiguous once the file was removed before:
+				// it may be the newest admissible class-less version (best) or an EARLIER
+				// removal whose event is applied late, after a newer content had already
+				// been read by an older change event (see below). The observation is
+				// admitted either way, but it must not raise the floor: the next sample may
+				// legitimately show the content again that was read before that removal.
+				if empty := (s.Get == "" && len(fp.part) == 0) || (s.Get != "" && !s.Found); empty && best > floor {
+					for _, v := range h.vers[f] {
+						if v.Kind == "remove" && v.TB < s.T1 && v.order < best {
+							h.run.count("ambiguous_empty_observation_floor_not_raised", 1)
+							best, bestV = floor, nil
+							break
+						}
+					}
+				}
 				push(f, s.T1, best, (s.Get == "" && len(fp.part) > 0) || (s.Get != "" && s.Found))
 				if bestV != nil && bestV.Seq > 0 {
 					observed[fmt.Sprintf("%d/%d/%d", h.idx, f, bestV.Seq)] = true
@@ -963,6 +978,29 @@ func (h *c19Run) judge() (finds []c19Finding, decisions int64, observed map[stri
 				}
 			}
 			// no admissible version: classify
+			if os.Getenv("VERIF_DEBUG") != "" && failures == 0 {
+				fmt.Printf("DEBUG C19 file %d floor=%d posFloor=%d sample %s [%d,%d] part=%v\n", f, floor, posFloor, s.By, s.T0, s.T1, fp.part)
+				for _, s2 := range samples {
+					if s2.T1 > s.T1+2 || s2.T1 < s.T1-60 || s2.Get != "" {
+						continue
+					}
+					var part []string
+					for _, n := range s2.Names {
+						if h.fileOf(n) == f {
+							part = append(part, n)
+						}
+					}
+					fmt.Printf("DEBUG   %s [%d,%d] file-part=%v err=%q\n", s2.By, s2.T0, s2.T1, part, s2.Err)
+				}
+				for _, v := range h.vers[f] {
+					fmt.Printf("DEBUG   version seq=%d order=%d kind=%s names=%v valid=%v [%d,%d] proven=%v\n", v.Seq, v.order, v.Kind, v.Names, v.Valid, v.TB, v.TE, v.Proven)
+				}
+				for i, a := range assigned[f] {
+					if a.t1 >= s.T1-60 {
+						fmt.Printf("DEBUG   assigned[%d] t1=%d order=%d\n", i, a.t1, a.order)
+					}
+				}
+			}
 			failures++
 			class := "unexplained-set"
 			what := fmt.Sprintf("%v", fp.part)
